@@ -182,10 +182,11 @@ func variantsFor(tool string, thorough bool) []string {
 		vs = append(vs, "no-reason")
 	}
 	if toolsWithPath[tool] {
-		vs = append(vs, "path-own", "path-foreign-existing", "path-foreign-new", "path-suffix", "path-dir", "path-dotdot", "path-relative", "path-alias", "path-newdir")
+		vs = append(vs, "path-own", "path-foreign-existing", "path-foreign-new", "path-suffix", "path-dir", "path-dotdot", "path-relative", "path-alias", "path-newdir",
+			"path-symlink-dotdot", "path-symlink-foreign", "path-symlink-alias")
 		// no config path configured: nothing is on the allowlist, whatever the caller names
 		vs = append(vs, "nocfg:path-foreign-existing", "nocfg:path-foreign-new", "nocfg:path-newdir", "nocfg:path-relative",
-			"nocfg:path-dotdot", "nocfg:path-unconfigured-file")
+			"nocfg:path-dotdot", "nocfg:path-unconfigured-file", "nocfg:path-symlink-dotdot", "nocfg:path-symlink-foreign")
 	}
 	if tool == "config_apply" {
 		for _, c := range []string{"valid", "valid-unhealthy", "parse-invalid", "compile-invalid", "garbage", "empty"} {
@@ -256,6 +257,14 @@ func buildArgs(w *worker, tool, variant string) (args map[string]any, omit bool,
 			args["path"] = rel
 		case "path-alias":
 			args["path"] = w.dir + "/./Hookaidofile" // the configured file under another spelling: either answer is fine
+		case "path-symlink-dotdot":
+			// lexically (Clean / Abs) this IS the configured path; the kernel resolves certs -> foreign/sub first, so it
+			// names the planted foreign file
+			args["path"] = w.dir + "/certs/../Hookaidofile"
+		case "path-symlink-foreign":
+			args["path"] = w.dir + "/foreign-link" // a symbolic link to the foreign file
+		case "path-symlink-alias":
+			args["path"] = w.dir + "/own-link" // a symbolic link to the configured file: either answer is fine
 		default:
 			return nil, false, fmt.Errorf("unknown variant %q", variant)
 		}
@@ -552,7 +561,7 @@ func runCase(w *worker, spec caseSpec) *caseResult {
 	}
 	// a path that is not the configured one must not be served: no answer derived from the planted foreign file,
 	// no successful answer for the supplied path (the "./" alias of the configured file is left open)
-	if sp, ok := args["path"].(string); ok && sp != "" && sp != configPath && spec.Variant != "path-alias" {
+	if sp, ok := args["path"].(string); ok && sp != "" && sp != configPath && spec.Variant != "path-alias" && spec.Variant != "path-symlink-alias" {
 		if strings.Contains(res.CallText, foreignMarkerRoute) && !strings.Contains(cr.ArgsJSON, foreignMarkerRoute) || strings.Contains(res.CallText, foreignMarkerPort) {
 			fail("served-foreign:"+spec.Tool+":"+spec.Variant, "the answer carries content of the foreign file %s (configured config path %q)", sp, configPath)
 		} else if !cr.Refused && res.Structured != nil && res.Structured["path"] == sp {
@@ -1077,7 +1086,7 @@ func TestCheck(t *testing.T) {
 	}
 	r.Set("workers", nw)
 	r.Set("cases_planned", len(cases))
-	r.Set("rule", "complete product: 31 documented tool names + 2 unknown names x role input {read, operate, admin, invalid 'root' via WithRole, invalid 'superuser' via Server.Role} x --enable-mutations {off,on} x --enable-runtime-control {off,on} x principal {set, empty} = 1320 table rows; every row is one Serve session (initialize, tools/list, tools/call with minimal valid arguments) on a fresh scratch directory (seeded SQLite queue db, config file, pid file of a harness child, foreign files) with side-effect probes; every row is repeated for every argument-shape variant of its tool (unknown key, no arguments, actor = / != principal in 4 spellings, missing reason, 9 path spellings, config_apply content{6} x mode{3}, management mode{2}); every row is also run twice in one session and on a server without configured config path (plus 6 path spellings there for the 8 path-taking tools: nothing may be written or created anywhere, no foreign content served); thorough adds 5 more unknown names (padded / upper-case spellings of real tools), 3 more invalid role inputs, 4 environment states (db missing, config unparsable, config missing, all routes on the memory backend = admin-proxy mode against a recording Admin API stand-in) . A case is distinct by (tool, configuration, variant, reference verdict, observed outcome)")
+	r.Set("rule", "complete product: 31 documented tool names + 2 unknown names x role input {read, operate, admin, invalid 'root' via WithRole, invalid 'superuser' via Server.Role} x --enable-mutations {off,on} x --enable-runtime-control {off,on} x principal {set, empty} = 1320 table rows; every row is one Serve session (initialize, tools/list, tools/call with minimal valid arguments) on a fresh scratch directory (seeded SQLite queue db, config file, pid file of a harness child, foreign files) with side-effect probes; every row is repeated for every argument-shape variant of its tool (unknown key, no arguments, actor = / != principal in 4 spellings, missing reason, 12 path spellings (incl. a `..` behind a symlinked directory and symbolic links to the foreign and to the configured file), config_apply content{6} x mode{3}, management mode{2}); every row is also run twice in one session and on a server without configured config path (plus 6 path spellings there for the 8 path-taking tools: nothing may be written or created anywhere, no foreign content served); thorough adds 5 more unknown names (padded / upper-case spellings of real tools), 3 more invalid role inputs, 4 environment states (db missing, config unparsable, config missing, all routes on the memory backend = admin-proxy mode against a recording Admin API stand-in) . A case is distinct by (tool, configuration, variant, reference verdict, observed outcome)")
 	r.Assume("reference table transcribed from docs/mcp.md, internal/mcp/spec.md, DESIGN.md 'Access Model' (cross-checked against the tree's docs at run time); 'refused' = JSON-RPC error or result.isError")
 	r.Assume("invalid role strings: the statement does not say whether they mean 'read' (documented default) or 'nothing'; both are accepted for read-level tools as long as tools/list and tools/call agree; anything above read must be refused")
 	r.Assume("queue backend sqlite in the table; admin-proxy mode (memory backend) only as a thorough-tier environment variant against a recording stand-in that answers 200 to everything (postgres is the same code path, not run); process effects are observed on harness-owned children (fake run binary = this test binary, signal-recording sleeper); admin health is an in-process loopback listener")
